@@ -56,11 +56,6 @@ theorem witness_optimistic_rewrite (F : FloatOps R) :
       = .un .not (.bin .add (.loc 0) (.lit (.int 1))) := by
   simp [Frontend.rwBin, Frontend.typeOf, Frontend.arithTy, Frontend.numTy, Frontend.isZeroLit, Frontend.isLit, Quirks.real]
 
-/-- finding pp-if-32bit: `#if 0 > 2147483648` is true in the preprocessor's 32-bit arithmetic -/
-theorem witness_pp_if_32 :
-    Frontend.ppEval32 (R := R) (.bin .gt (.lit (.int 0)) (.lit (.int (2 ^ 31)))) = some 1 := by
-  simp [Frontend.ppEval32, wrap32]
-
 /-- finding rev-range-wrap: `a[<INT64_MIN..]` on a one-element array returns the whole array (`size - i` wraps),
     the reference result is empty -/
 theorem witness_rev_range_wrap :
